@@ -147,6 +147,9 @@ def run(ctx, args):
         if ctx.tier == "thorough":
             import netrace
             netrace.run_net(ctx)
+            # graph synchronisation relies on the topological order as a cursor (spec/Sync)
+            import sync
+            sync.run_sync(ctx)
     ctx.assumptions += [
         "the template universe (11 transactions, 3 assets, batches of 1-2) bounds the histories; amounts are whole units",
         "one representative honest node both validates (as signer) and applies; certificates are produced with the genesis keys",
